@@ -84,6 +84,8 @@ def build(spec: dict):
         tl = trick_list(deal, spec['tricks'])
         for t, (ld, cs) in enumerate(tl, 1):
             play.record(t, TrickHistory(adapt.PL[ld], tuple(adapt.CARDS[c] for c in cs)))
+            if t % 4 == 1:
+                play.history            # a look at the history while the play is still going on (a live display, a snapshot log)
         exp_play = [(ld, tuple(cs)) for ld, cs in tl]
         taken = spec['taken']
         exp_con = (bid, dbl)
@@ -222,6 +224,31 @@ def compare_setting(i: int, got, exp: dict) -> List[tuple]:
     return out
 
 
+def run_reuse(first: List[dict], second: List[dict], mode: str, c: Counter):
+    """History on ONE writer object: document 1 (open, write*, close), the stream is emptied, document 2.  Document 2 is judged."""
+    buf = io.StringIO()
+    w = JsonLogWriter(buf)
+    rp = {'kind': 'doc', 'specs': second, 'mode': mode, 'before': first}
+    try:
+        for part in (first, second):
+            buf.seek(0)
+            buf.truncate()
+            if mode == 'with':
+                with w:
+                    for sp in part:
+                        w.write(**build(sp)[0])
+            else:
+                w.open()
+                for sp in part:
+                    w.write(**build(sp)[0])
+                w.close()
+    except Exception as e:  # noqa
+        c.violate('reuse:raise', f'one writer object used for two documents in a row raised {type(e).__name__}: {e}', rp)
+        return
+    c.inc('writer_reuse_histories')
+    judge_text(buf.getvalue(), second, [build(sp) for sp in second], c, 'second-document-of-one-writer', rp)
+
+
 def run_doc(specs: List[dict], mode: str, c: Counter, tag: str):
     """One document: the operation sequence on the real writer, then every oracle."""
     rp = {'kind': 'doc', 'specs': specs, 'mode': mode}
@@ -270,6 +297,10 @@ def run_doc(specs: List[dict], mode: str, c: Counter, tag: str):
             c.violate(f'encode:{tag}', f'the bytes written to a {sink} file cannot be read back as text: {e}', rp)
             return
     text = text_from_bytes if sink else buf.getvalue()
+    judge_text(text, specs, built, c, tag, rp)
+
+
+def judge_text(text: str, specs, built, c: Counter, tag: str, rp: dict):
     c.inc('evals')
     c.inc('documents')
     c.inc('records', len(specs))
@@ -382,7 +413,10 @@ def unit(args):
             run_doc([spec], 'manual', c, tag)
     elif kind == 'docs':
         for mode, specs in payload:
-            run_doc(specs, mode, c, f'seq-{mode}')
+            if isinstance(specs, tuple):
+                run_reuse(specs[0], specs[1], mode, c)
+            else:
+                run_doc(specs, mode, c, f'seq-{mode}')
     return c
 
 
@@ -407,6 +441,10 @@ def run(tier, seed, workers):
     docs.append(('with', same))
     docs.append(('manual', same[::2]))
     docs.append(('with', [same[3], same[0]]))
+    # one writer object used for two documents in a row
+    for m in ('manual', 'with'):
+        for a, b in (([], [pl[0]]), ([pl[1]], [pl[0], pl[2]]), ([pl[0], pl[2]], []), ([pl[3]], [pl[4]])):
+            docs.append((m, (a, b)))
     if True:
         # all combinations of the small menus on one record (quick: a sub-product; thorough: every contract as well)
         extra = []
@@ -445,5 +483,8 @@ def run(tier, seed, workers):
 
 def replay(d):
     c = Counter()
-    run_doc(d['specs'], d['mode'], c, 'replay')
+    if 'before' in d:
+        run_reuse(d['before'], d['specs'], d['mode'], c)
+    else:
+        run_doc(d['specs'], d['mode'], c, 'replay')
     return bool(c.violations), '\n'.join(f'{v.key}: {v.message}' for v in c.violations) or 'all oracles satisfied'
